@@ -1,4 +1,4 @@
-import TextxVerif.Proofs.History
+import TextxVerif.Proofs.HistoryWalk
 /-!
 # C16 — loading is independent of the metamodel's history
 
@@ -13,6 +13,11 @@ on the surviving caches; the semantic phases are arbitrary functions (`Sem`) of 
 replays a history knowing only *which metamodels exist*.  Helper lemmas: `Proofs/History.lean`
 (invariant `Rest`, frame of the heap, the counting argument for the instrumentation) and
 `Proofs/HistoryCache.lean` (a non-memoizing parser never touches the caches, through the whole mirror).
+
+Clearing the caches: the machine `real` drops every memo entry; Arpeggio walks the parser model along
+`ParsingExpression.nodes` (`walk`, `walkClear`, variant `realWalk`).  `Proofs/HistoryReach.lean` (stores only
+hit walked rule objects, through the whole mirror) and `Proofs/HistoryWalk.lean` (the walk computes
+reachability; `run realWalk = run real`) justify the abstraction — section "clearing by walking" below.
 -/
 namespace History
 open Peg
@@ -193,5 +198,170 @@ example : dumps (run real (wWorld false) wSem [.new 0, .load 0 [inA], .load 0 [i
 
 example : ((run real (wWorld true) wSem [.new 0, .load 0 [inA, inA]] empty).1.map (Option.map (·.initCounts)))
     = [none, some [1, 0]] := by decide +kernel
+
+/-! ## clearing by walking: `Parser._clear_caches` follows `nodes` from the parser model and the comments model -/
+
+/-- the rule objects Arpeggio's `_clear_caches` can get to: reachable along `nodes` from the parser
+model or from the comments model -/
+def Walked (nodes : Array Node) (top : Nat) (comments : Option Nat) (i : Nat) : Prop :=
+  Reach nodes top i ∨ ∃ c, comments = some c ∧ Reach nodes c i
+
+/-- **The walk computes reachability**: the executable mirror of `_clear_cache` (explicit stack, fuel
+`edges + 1` — never exhausted) visits exactly the nodes reachable along `nodes`. -/
+theorem C16_walk_is_reach (nodes : Array Node) (top : Nat) (comments : Option Nat) (i : Nat) :
+    i ∈ clearedBy nodes top comments ↔ Walked nodes top comments i :=
+  mem_clearedBy_iff nodes top comments i
+
+theorem walkOK_of_walked (g : Grammar) (top : Nat)
+    (hsep : ∀ i, Walked g.nodes top g.comments i → sepTerm g.nodes i = true) :
+    walkOK g.nodes top g.comments = true :=
+  List.all_eq_true.mpr fun i hi => hsep i ((mem_clearedBy_iff g.nodes top g.comments i).mp hi)
+
+/-- **Memo stores only hit walked rule objects** (assumption 2 of the notes, now a theorem).  For every
+parser model, memoization flag, input, fuel and start state: if the separators of the repetitions
+reachable from the parser model / comments model are `Match` objects (`Match.parse` never memoizes; the
+walk does not follow `Repetition.sep`), every memo entry present after parsing `top` was present before
+or belongs to a rule object reachable along `nodes` — one that `_clear_caches` empties. -/
+theorem C16_stores_reachable (g : Grammar) (top n : Nat) (s : PState)
+    (hsep : ∀ i, Walked g.nodes top g.comments i → sepTerm g.nodes i = true) :
+    ∀ e ∈ (parse g n top s).2.cache, e ∈ s.cache ∨ Walked g.nodes top g.comments e.1.1 := by
+  intro e he
+  have hw := walkOK_of_walked g top hsep
+  rcases parse_stores_in (closed_cleared g top hw) n top s (Or.inl (top_cleared g.nodes top g.comments)) e he
+    with h | h
+  · exact .inl h
+  · exact .inr ((mem_clearedBy_iff g.nodes top g.comments e.1.1).mp ((clearedSet_iff _ _ _ _).mp h))
+
+/-- the form suggested by the review: started on empty caches, every entry is at a walked node -/
+theorem C16_stores_reachable_fresh (g : Grammar) (top n : Nat) (s : PState)
+    (hsep : ∀ i, Walked g.nodes top g.comments i → sepTerm g.nodes i = true) :
+    ∀ e ∈ (parse g n top { s with cache := [] }).2.cache, Walked g.nodes top g.comments e.1.1 := by
+  intro e he
+  rcases C16_stores_reachable g top n { s with cache := [] } hsep e he with h | h
+  · simp at h
+  · exact h
+
+/-- hence Arpeggio's walk leaves nothing behind after a parse that started on empty caches … -/
+theorem C16_walk_clears (g : Grammar) (top n : Nat) (s : PState)
+    (hsep : ∀ i, Walked g.nodes top g.comments i → sepTerm g.nodes i = true) :
+    walkClear g.nodes top g.comments (parse g n top { s with cache := [] }).2.cache = [] := by
+  rw [walkClear_parse g top (walkOK_of_walked g top hsep)]
+  rfl
+
+/-- … and in general it leaves exactly what it would have left of the caches the parse started on
+(entries of rule objects of *other* parsers are neither dropped nor added). -/
+theorem C16_walk_frame (g : Grammar) (top n : Nat) (s : PState)
+    (hsep : ∀ i, Walked g.nodes top g.comments i → sepTerm g.nodes i = true) :
+    walkClear g.nodes top g.comments (parse g n top s).2.cache = walkClear g.nodes top g.comments s.cache :=
+  walkClear_parse g top (walkOK_of_walked g top hsep) n s
+
+/-- **Walking = dropping everything.**  The machine that clears the way Arpeggio does (`realWalk`) is the
+machine `real` of the theorems above: same outcomes, same surviving states, for every history from every
+state with empty caches — on every world whose walked repetitions have `Match` separators (`walkOK`,
+evaluated by the driver on every dumped pool; textX's grammar language allows no other separators). -/
+theorem C16_walk_run (W : World) (sem : Sem) (hW : W.walkOK = true) (ops : List Op) (H : Hidden)
+    (hc : H.cache = []) : run realWalk W sem ops H = run real W sem ops H :=
+  run_walk W sem hW ops H hc
+
+/-- `C16_history` for the machine with Arpeggio's cache walk -/
+theorem C16_history_walk (W : World) (sem : Sem) (hW : W.walkOK = true) (ops : List Op) (H : Hidden)
+    (hr : Rest H) :
+    (run realWalk W sem ops H).1 = specRun W sem ops (exists_ H) ∧ Rest (run realWalk W sem ops H).2 := by
+  rw [run_walk W sem hW ops H hr.cache]
+  exact C16_history W sem ops H hr
+
+/-- `C16_same_as_fresh` (the statement, literally) for the machine with Arpeggio's cache walk -/
+theorem C16_same_as_fresh_walk (W : World) (sem : Sem) (hW : W.walkOK = true) (ops : List Op) (k : Nat) (m : MM)
+    (files : List Inp) (hm : W.mms[k]? = some m) (hk : exists_ (run realWalk W sem ops empty).2 k = true) :
+    (load realWalk W sem k files (run realWalk W sem ops empty).2).1
+      = (load realWalk W sem k files (create W k empty)).1 := by
+  rw [run_walk W sem hW ops empty rfl] at hk ⊢
+  rw [(load_walk W sem k files _ hW (C16_reachable_rest W sem ops).cache).1,
+      (load_walk W sem k files _ hW (rest_create W k empty rest_empty).cache).1]
+  exact C16_same_as_fresh W sem ops k m files hm hk
+
+/-! ### the separator hypothesis is needed
+
+`Model: 'a'+[SEP]` with `SEP` a *Sequence* `(',')` instead of a `Match`: node 0 = `Sequence(1, EOF)`,
+1 = `OneOrMore('a', sep=3)`, 2 = `'a'`, 3 = `Sequence(',')`, 4 = `EOF`, 5 = `','`.  Node 3 is parsed (and
+memoized) but hangs on `Repetition.sep`, which `_clear_cache` does not follow. -/
+def sepNodes (sepKind : Kind) : Array Node := #[
+  { kind := .seq, kids := [1, 4], root := true, rule := "Model" },
+  { kind := .plus, kids := [2], sep := some 3 },
+  { kind := .str, tok := 2 },
+  { kind := sepKind, kids := if sepKind == .seq then [5] else [], tok := 5 },
+  { kind := .eof },
+  { kind := .str, tok := 5 }]
+
+def sepWorld (sepKind : Kind) : World :=
+  { nodes := sepNodes sepKind,
+    mms := [{ top := 0, comments := none, memo := true, skipws := true, ws := [' '] }] }
+
+/-- the texts `a,a` and `a;a` -/
+def inAcA : Inp :=
+  { input := #['a', ',', 'a'], fuel := 8,
+    toks := #[#[], #[], #[some 1, none, some 1, none], #[], #[], #[none, some 1, none, none]] }
+def inAsA : Inp :=
+  { input := #['a', ';', 'a'], fuel := 8,
+    toks := #[#[], #[], #[some 1, none, some 1, none], #[], #[], #[none, none, none, none]] }
+
+/-- with a non-`Match` separator Arpeggio's walk misses the separator's cache: `a;a` is accepted after
+`a,a` was loaded (the memoized separator match at position 1 is reused), a fresh process rejects it —
+and the clear-everything machine `real` does not show this.  (Not reachable from a textX grammar.) -/
+theorem C16_walk_sep_false :
+    (sepWorld .seq).walkOK = false ∧
+    phases (run realWalk (sepWorld .seq) wSem [.new 0, .load 0 [inAcA], .load 0 [inAsA]] empty).1
+        = [none, some .ok, some .ok] ∧
+    phases (run realWalk (sepWorld .seq) wSem [.new 0, .load 0 [inAsA]] empty).1 = [none, some (.parse 0)] ∧
+    phases (run real (sepWorld .seq) wSem [.new 0, .load 0 [inAcA], .load 0 [inAsA]] empty).1
+        = [none, some .ok, some (.parse 0)] := by
+  decide +kernel
+
+/-! non-vacuity of `walkOK`: worlds that satisfy it, with memo stores that the walk has to find -/
+
+example : (wWorld true).walkOK = true := by decide +kernel
+
+example : (sepWorld .str).walkOK = true ∧
+    ((run realWalk (sepWorld .str) wSem [.new 0, .load 0 [inAcA], .load 0 [inAsA]] empty).1.map
+        (Option.map fun o => (o.phase, o.stores))) = [none, some (.ok, [2]), some (.parse 0, [2])] ∧
+    (run realWalk (sepWorld .str) wSem [.new 0, .load 0 [inAcA], .load 0 [inAsA]] empty).2.cache = [] := by
+  decide +kernel
+
+/-- the walk visits the nodes reachable along `nodes` only: 0, 1, 2, 4 — not the separator 3 and its child 5 -/
+example : clearedBy (sepNodes .seq) 0 none = [4, 2, 1, 0] := by decide +kernel
+
+/-- non-vacuity of the hypothesis of `C16_stores_reachable` -/
+example : ∀ i, Walked (sepNodes .str) 0 none i → sepTerm (sepNodes .str) i = true := by
+  intro i hi
+  have h := (C16_walk_is_reach (sepNodes .str) 0 none i).mpr hi
+  have hall : (clearedBy (sepNodes .str) 0 none).all (sepTerm (sepNodes .str)) = true := by decide +kernel
+  exact List.all_eq_true.mp hall i h
+
+/-! ## what a load reads of the metamodel-creation history -/
+
+/-- **Frame of the creation state.**  For every variant of the machine, every state (at rest or not) and
+every load: replacing the grammar-parser cache `textX_parsers` by anything and the owner of the shared
+base-type rules by any other owner changes neither the outcome nor the rest of the surviving state — the
+load commutes with the replacement.  (Of `baseOwner` only "is there an owner" is read:
+`process_node` looks at the rule *type* of the owner's class, which is the same for every owner.) -/
+theorem C16_creation_frame (v : Variant) (W : World) (sem : Sem) (k : Nat) (files : List Inp) (H : Hidden)
+    (gp : List (Bool × Bool)) (bo : Option Nat) (h : bo.isSome = H.baseOwner.isSome) :
+    load v W sem k files { H with gp := gp, baseOwner := bo } =
+      ((load v W sem k files H).1, { (load v W sem k files H).2 with gp := gp, baseOwner := bo }) :=
+  load_sw v W sem k files H gp bo h
+
+/-- a semantics that shows what it read of the base-type back-pointer -/
+def ownerSem : Sem :=
+  { file := fun _ _ => { ok := true, dump := 0, allocs := 0, stack := [], instances := [], crossrefs := [] },
+    final := fun _ rs _ => (.ok, (rs.map (fun r => if r.baseIsMatch then 1 else 0)).sum) }
+
+/-- non-vacuity of `C16_creation_frame`: another owner and another parser cache, same outcome; and the
+hypothesis is needed — without any owner the read differs -/
+example :
+    let H := create (wWorld false) 0 empty
+    (load real (wWorld false) ownerSem 0 [inA] { H with gp := [(true, true)], baseOwner := some 7 }).1.dump = 1 ∧
+    (load real (wWorld false) ownerSem 0 [inA] H).1.dump = 1 ∧
+    (load real (wWorld false) ownerSem 0 [inA] { H with baseOwner := none }).1.dump = 0 := by
+  decide +kernel
 
 end History
